@@ -164,6 +164,10 @@ def scenarios(ctx):
         add(2, [12], ["game:1:1"], slow=1.2, api=pmg)
         add(1, [5], ["factory:0"], api=pmg)
         add(1, [8], ["killplay:0:1"], api=pmg)
+        # abrupt death by other signals than KILL
+        add(2, [5], ["killplay:0:1"], slow=0.2, sig="TERM")
+        add(1, [2], ["killplay:0:2"], sig=rng.choice(["SEGV", "ABRT", "HUP"]))
+        add(2, [2, 2], ["killwait:1:2"], sig="TERM")
     else:
         for W in (1, 2, 3, 4):
             for N in (1, 2, 3, 5, 8):
@@ -181,6 +185,8 @@ def scenarios(ctx):
                     add(W, [2, 3], ["game:%d:%d" % (j, rng.choice([1, 2, 3]))], slow=0.1 if W > 1 else 0.0)
                     for k in (1, 2):
                         add(W, [rng.choice([2, 5])], ["killplay:%d:%d" % (j, k)], slow=0.1 if W > 1 else 0.0)
+                    add(W, [rng.choice([2, 5])], ["killplay:%d:%d" % (j, rng.choice([1, 2]))], slow=0.1 if W > 1 else 0.0, sig=rng.choice(["TERM", "SEGV", "ABRT", "HUP"]))
+                    add(W, [rng.choice([1, 2, 5]), 2], ["killwait:%d:%d" % (j, rng.choice([1, 2]))], sig=rng.choice(["TERM", "HUP"]))
                     for r in (1, 2):
                         add(W, [rng.choice([1, 2, 5]), 2], ["killwait:%d:%d" % (j, r)])
                     if rng.random() < 0.5:
@@ -290,7 +296,7 @@ def judge(scn, res):
                 }[o["outcome"]],
             )
             if o["outcome"] == "blocked" and codes:
-                bad = sorted({c for c in codes if c is not None and c != -9})
+                bad = sorted({c for c in codes if c is not None and c >= 0})
                 if bad:
                     m = driver.run_lines([predict_line(scn, bad[0])])[0]
                     what += "; model with failCode=%d admits: %s" % (bad[0], m)
